@@ -630,6 +630,85 @@ pub fn unreached_failures(prop: &str) -> (u64, Vec<Violation>) {
             }
         }
     }
+    // the failing operation as the operand of every other construct, the result bound to a name
+    // (the checker's and the folder's type queries then go through the failed operand)
+    const FAILING: &[(&str, &str)] = &[
+        ("I", "[1, 2][d]"),
+        ("B", "[true][d]"),
+        ("T", "[(1, 2)][d]"),
+        ("S", "[struct{ a := 1 }][d]"),
+        ("C", "[mut 1][d]"),
+        ("F", "[(v: int) -> int { return v }][d]"),
+        ("A", "[[1]][d]"),
+        ("IT", "[[1]~][d]"),
+        ("STR", "[\"ab\"][d]"),
+    ];
+    const CONSUMERS: &[&str] = &[
+        "x := I; return x", "x := I + 1; return x", "x := 1 - I; return x", "x := -I; return x", "x := !B; return x", "x := I == 1; return x", "x := I < 2; return x",
+        "x := B && true; return x", "x := true && B; return x", "x := B | false; return x", "x := if B { 1 } else { 2 }; return x", "x := mut 0; while B { x += 1; break }; return *x",
+        "x := T.0; return x", "(p, q) := T; return p", "x := S.a; return x", "x := *C; return x", "x := C += 1; return x", "x := C = 2; return x", "x := F(1); return x",
+        "x := A[0]; return x", "x := A[0:]; return x", "x := A + [2]; return x", "x := A~; return x", "x := A~ $]; return x", "x := IT $+; return x", "x := IT $]; return x",
+        "x := IT @ (v: int) -> int { return v }; return x", "x := IT ? (v: int) -> bool { return true }; return x", "x := IT ? int; return x", "x := IT $ 0 (a: int, v: int) -> int { return a + v }; return x",
+        "x := mut 0; for e in IT { x += e }; return *x", "x := match I { 1 => 10, => 20, }; return x", "x := match I { v: int => v, }; return x", "x := if v: int = I { v } else { 0 }; return x",
+        "x := [I; 2]; return x", "x := [1; I]; return x", "x := [I, 2]; return x", "x := (I, 2); return x", "x := struct{ f := I }; return x", "x := mut I; return x", "x := STR + \"c\"; return x",
+        "x := STR[0]; return x", "x := std.len(A); return x", "x := { I }; return x", "x := () -> int { return I }; return x()", "x := [1, 2][I]; return x", "x := [1, 2][I:]; return x",
+    ];
+    for consumer in CONSUMERS {
+        let mut body = consumer.to_string();
+        // longest placeholders first
+        for (ph, expr) in [FAILING[8], FAILING[7], FAILING[0], FAILING[1], FAILING[2], FAILING[3], FAILING[4], FAILING[5], FAILING[6]] {
+            let mut outp = String::new();
+            let mut rest = body.as_str();
+            // replace the placeholder only where it stands alone as a token
+            while let Some(pos) = rest.find(ph) {
+                let before = rest[..pos].chars().last();
+                let after = rest[pos + ph.len()..].chars().next();
+                let alone = !before.is_some_and(|c| c.is_alphanumeric() || c == '_' || c == '"') && !after.is_some_and(|c| c.is_alphanumeric() || c == '_' || c == '"');
+                outp.push_str(&rest[..pos]);
+                outp.push_str(if alone { expr } else { ph });
+                rest = &rest[pos + ph.len()..];
+            }
+            outp.push_str(rest);
+            body = outp;
+        }
+        let text = format!("f := (d: int) -> (bool) -> any {{ return (c2: bool) -> any {{ if c2 {{ {body} }}; return -1 }} }}");
+        n += 1;
+        let define = |text: &str| match guard(|| Code::parse(&interp, text).map(|c| c.exec())) {
+            Ok(Ok(Ok(Variable::Function(f)))) => Ok(f),
+            other => Err(format!("{:?}", other.map(|r| r.map(|x| x.map(|v| canon(&v)))))),
+        };
+        let call = |f: &std::sync::Arc<simplesl::function::Function>, args: Vec<Variable>| match guard(|| f.clone().create_call(args).map(|c| c.exec())) {
+            Ok(Ok(Ok(r))) => Ok(r),
+            Ok(Ok(Err(e))) => Err(format!("error:{}", core::exec_error_kind(&e))),
+            Ok(Err(e)) => Err(format!("host-rejected:{}", core::error_kind(&e))),
+            Err(Stop::Panic(p)) => Err(format!("PANIC {} @{}", p.short_msg(), p.file())),
+            Err(Stop::Exhausted) => Err("exhausted".into()),
+        };
+        let mut push = |what: &str, args: &str, want: &str, got: String| {
+            out.push(Violation {
+                sig: format!("{prop}|unreached-failure|{what}|operand-of={consumer}"),
+                detail: json!({"kind": "host_call", "program": text, "args": args, "expected": want, "observed": got}),
+            });
+        };
+        match define(&text) {
+            Err(e) => push("program-fails", "", "accepted", e),
+            Ok(f) => match call(&f, vec![Variable::Int(5)]) {
+                Ok(Variable::Function(g)) => {
+                    let got = call(&g, vec![Variable::Bool(false)]).map(|v| canon(&v)).unwrap_or_else(|e| e);
+                    if got != "-1" {
+                        push("not-reached-but-fails", "f(5)(false)", "-1", got);
+                    }
+                    n += 1;
+                    let got = call(&g, vec![Variable::Bool(true)]).map(|v| canon(&v)).unwrap_or_else(|e| e);
+                    if got != "error:IndexOutOfBounds" {
+                        push("reached-but-does-not-fail-as-documented", "f(5)(true)", "error:IndexOutOfBounds", got);
+                    }
+                }
+                Ok(other) => push("not-reached-but-fails", "f(5)", "a function value", canon(&other)),
+                Err(e) => push("creating-the-function-value-fails", "f(5)", "a function value", e),
+            },
+        }
+    }
     (n, out)
 }
 
